@@ -169,6 +169,22 @@ class FactSink:
         return z3.Const(f"{base}!{self.counter}", sort)
 
 
+def define(base, expr):
+    """name a term: a fresh constant with the defining fact c == expr, cached per (path, term) so that the
+    code side and the spec side get the SAME constant for structurally equal terms"""
+    if not is_sym(expr):
+        return expr
+    S = sink()
+    key = ("def", expr.get_id())
+    hit = S.split_cache.get(key)
+    if hit is not None and hit[1].eq(expr):
+        return hit[0]
+    c = S.fresh(base)
+    S.add(c == expr)
+    S.split_cache[key] = (c, expr)
+    return c
+
+
 def sink():
     if FactSink.current is None:
         FactSink.current = FactSink()
